@@ -8,6 +8,7 @@ import six
 import attr
 
 import asn1crypto.core
+import asn1crypto.parser
 
 from cryptodatahub.common.exception import InvalidValue
 
@@ -168,13 +169,19 @@ class LDAPMessageParsableBase(ParsableBase):
 
         return message
 
+    @staticmethod
+    def _get_message_length(parsable):
+        # the number of octets the message occupies in the input; re-encoding it (dump) gives the DER length,
+        # which is shorter for the indefinite and other non-minimal BER length forms
+        return asn1crypto.parser.peek(bytes(parsable))
+
 
 class LDAPExtendedRequestStartTLS(LDAPMessageParsableBase):
     @classmethod
     def _parse(cls, parsable):
         asn1_message = cls._parse_asn1(parsable)
 
-        return LDAPExtendedRequestStartTLS(), len(asn1_message.dump())
+        return LDAPExtendedRequestStartTLS(), cls._get_message_length(parsable)
 
     def compose(self):
         return LDAPMessage({
@@ -197,7 +204,7 @@ class LDAPExtendedResponseStartTLS(LDAPMessageParsableBase):
 
         return LDAPExtendedResponseStartTLS(
             asn1_message['protocolOp'].chosen['resultCode'].native
-        ), len(asn1_message.dump())
+        ), cls._get_message_length(parsable)
 
     def compose(self):
         return LDAPMessage({
